@@ -18,6 +18,22 @@ from ..utils import R
 MAX_FLUX_ITERATIONS = 10000
 
 
+def _validate_feed_state(feed_mass: float, feed_temperature: float) -> None:
+    """
+    Raises if the feed state of a process model left the physically meaningful region
+    (feed exhausted or cooled below absolute zero), which happens when the time step is too coarse
+    """
+    if not (numpy.isfinite(feed_mass) and feed_mass > 0):
+        raise ValueError(
+            "Feed mass became %s: the feed is exhausted, decrease the step size or the number of steps"
+            % feed_mass
+        )
+    if not (numpy.isfinite(feed_temperature) and feed_temperature > 0):
+        raise ValueError(
+            "Feed temperature became %s K: decrease the step size" % feed_temperature
+        )
+
+
 def get_permeate_composition_from_fluxes(
     fluxes: typing.Tuple[float, float],
 ) -> Composition:
@@ -370,6 +386,7 @@ class Pervaporation:
             )
 
         for step in range(len(time)):
+            _validate_feed_state(feed_mass[step], conditions.initial_feed_temperature)
             partial_fluxes.append(
                 self.calculate_partial_fluxes(
                     feed_temperature=conditions.initial_feed_temperature,
@@ -487,6 +504,7 @@ class Pervaporation:
         feed_mass: typing.List[float] = [conditions.initial_feed_amount]
 
         for step in range(len(time)):
+            _validate_feed_state(feed_mass[step], feed_temperature[step])
 
             evaporation_heat_1 = (
                 self.mixture.first_component.get_vaporisation_heat(
@@ -1079,6 +1097,7 @@ class Pervaporation:
             )
 
         for step in range(len(time)):
+            _validate_feed_state(feed_mass[step], conditions.initial_feed_temperature)
 
             partial_fluxes.append(
                 self.calculate_partial_fluxes(
@@ -1351,6 +1370,7 @@ class Pervaporation:
         )
 
         for step in range(len(time)):
+            _validate_feed_state(feed_mass[step], feed_temperature[step])
 
             evaporation_heat_1 = (
                 self.mixture.first_component.get_vaporisation_heat(
